@@ -4,7 +4,8 @@ use proptest::prelude::*;
 use serde_json::{json, Value};
 use vmodel::{
     engine::{fingerprint, Failure, ShardCtx, Verdict},
-    refs::{quote_token, ref_tokens},
+    lockstep::{check_dispatch, expected_dispatch, Dispatch},
+    refs::{is_help_request, patterns_match, quote_token, ref_classify, ref_token_patterns, ref_tokens},
     session::{Config, LArg, RawSet, Sess},
 };
 
@@ -22,10 +23,11 @@ pub fn check() -> Check {
         floor_thorough: 1_000_000,
         rule: "G1: every line of length <= 10 (quick) / 11 (thorough) over {a, space, quote, backslash, dash, e-acute} tokenised by Tokens::new and compared with a reference grammar written from the property; \
                G2: random lines up to 200 chars over 1-4-byte characters; G3: round trip - random lists of 0-6 arbitrary NUL-free strings rendered fully or minimally quoted, with or without blanks after closing quotes, must tokenise back to exactly the list; \
-               G4: the same lists typed through a whole Cli and read back by the handler. \
+               G4: the same lists typed through a whole Cli and read back by the handler (after `x --`, or as the whole line: name + classified arguments); renderings may leave the last quote open; \
+               G1b: every line of <= 8/9 symbols over {a, space, quote, U+00A0, U+3000} (Unicode blanks are ordinary characters); G5: every line of <= 7/8 symbols over the first alphabet typed through the Cli and compared with the reference dispatch. \
                Non-trivial = the line contains an empty quoted token, an escape, or a quote adjacent to another token; distinct by line content.",
         assumptions: &[
-            "inside quotes a backslash followed by anything but quote or backslash, and a dangling final backslash, are left open by the property: such lines are checked for well-formed output only (skipped_unspecified)",
+            "inside quotes a backslash followed by anything but quote or backslash, and a dangling final backslash, are left open by the property: on such lines (skipped_unspecified) the token boundaries and all other characters are still compared, the open escape may yield c or backslash-c (nothing or a backslash at the end of the line)",
             "lines contain no NUL (the property quantifies over lines without NUL)",
         ],
         ..DEFAULT
@@ -64,7 +66,17 @@ fn compare_line(line: &str) -> Result<bool, (String, String)> {
         ));
     }
     match ref_tokens(line) {
-        None => Ok(false),
+        None => {
+            // the line touches an escape the rules leave open: the token boundaries, the closing quotes and every
+            // other character are still fixed; only the open escapes are a choice (c or \c; nothing or \ at the end)
+            if let Some(pats) = ref_token_patterns(line) {
+                let got_s = lossy_list(&got);
+                if !patterns_match(&pats, &got_s) {
+                    return Err((format!("tokens matching {:?} (Esc(c) = c or \\c, Dangling = nothing or \\)", pats), format!("{:?}", got_s)));
+                }
+            }
+            Ok(false)
+        }
         Some(exp) => {
             let got_s = lossy_list(&got);
             if got_s != exp {
@@ -91,6 +103,10 @@ pub struct Rendering {
     pub gaps: Vec<u8>,
     pub lead: u8,
     pub trail: u8,
+    /// leave the quote of the last token open when it is rendered quoted ("or the end of the line")
+    pub open_last: bool,
+    /// G4: type the list as the whole line (name + arguments) instead of after `x --`
+    pub direct: bool,
 }
 
 impl Rendering {
@@ -109,14 +125,19 @@ impl Rendering {
             prev_quoted = q.starts_with('"');
             s.push_str(&q);
         }
-        // trailing blanks are harmless unless the last token is an unterminated... (never: we close quotes)
+        if self.open_last && prev_quoted {
+            // an unterminated quoted token runs to the end of the line: no closing quote, no trailing blanks
+            s.pop();
+            return s;
+        }
         s.push_str(&" ".repeat(self.trail as usize));
         s
     }
 }
 
 fn token_strategy(typeable: bool) -> impl Strategy<Value = String> {
-    let table: Vec<char> = vec!['a', 'b', ' ', '"', '\\', '-', 'é', 'Ж', '₿', '𝄞', 'x', '\''];
+    // U+0085, U+00A0, U+2003, U+3000 are blanks to Unicode but ordinary characters to the tokeniser ("split at runs of spaces")
+    let table: Vec<char> = vec!['a', 'b', ' ', '"', '\\', '-', 'é', 'Ж', '₿', '𝄞', 'x', '\'', '\u{a0}', '\u{3000}', '\u{85}', '\u{2003}', 'à', 'ก'];
     let ch = prop_oneof![
         8 => any::<u16>().prop_map(move |s| pick(&table, s)),
         1 => any::<char>().prop_map(move |c| if c == '\0' || (typeable && (c < ' ' || c == '\x7f')) { 'Ω' } else { c }),
@@ -126,12 +147,14 @@ fn token_strategy(typeable: bool) -> impl Strategy<Value = String> {
 
 fn rendering_strategy(typeable: bool) -> impl Strategy<Value = Rendering> {
     proptest::collection::vec((token_strategy(typeable), any::<bool>(), 0u8..3), 0..=6).prop_flat_map(|items| {
-        (Just(items), 0u8..3, 0u8..3).prop_map(|(items, lead, trail)| Rendering {
+        (Just(items), 0u8..3, 0u8..3, 0u8..4, any::<bool>()).prop_map(|(items, lead, trail, open, direct)| Rendering {
             list: items.iter().map(|i| i.0.clone()).collect(),
             force: items.iter().map(|i| i.1).collect(),
             gaps: items.iter().map(|i| i.2).collect(),
             lead,
             trail,
+            open_last: open == 0,
+            direct,
         })
     })
 }
@@ -149,6 +172,37 @@ fn check_roundtrip(r: &Rendering) -> Verdict {
         ));
     }
     Ok(())
+}
+
+/// Type a line, press Enter, return the handler log
+fn through_cli(sub: &str, line: &str, case: &dyn Fn() -> Value) -> Result<Vec<vmodel::session::Call>, Failure> {
+    let cfg = Config {
+        cmd_buf: 2048,
+        hist_buf: 0,
+        ..Config::default()
+    };
+    let (s, _) = Sess::<RawSet>::new(&cfg, None);
+    let mut s = s.map_err(|e| Failure::new(sub, case(), "construction succeeds", format!("{:?}", e)))?;
+    for &b in line.as_bytes() {
+        s.byte(b).map_err(|e| Failure::new(sub, case(), "Ok", format!("{:?}", e)))?;
+    }
+    s.byte(b'\r').map_err(|e| Failure::new(sub, case(), "Ok", format!("{:?}", e)))?;
+    Ok(s.proc_.log.clone())
+}
+
+/// The list typed as the whole line: the first string is the command name, the rest are classified arguments
+fn check_direct_cli(list: &[String], line: &str) -> Verdict {
+    let case = || json!({"list": list, "line": line, "direct": true});
+    let log = through_cli("roundtrip-cli", line, &case)?;
+    let d = Dispatch::Exactly(list[0].clone(), ref_classify(&list[1..]));
+    check_dispatch(&d, &log, "Enter", line).map_err(|(e, o)| Failure::new("roundtrip-cli", case(), e, o))
+}
+
+/// A whole line through the Cli against the reference grammar (name + classified arguments, or no dispatch)
+fn check_line_cli(line: &str) -> Verdict {
+    let case = || json!({"line": line});
+    let log = through_cli("tokens-cli", line, &case)?;
+    check_dispatch(&expected_dispatch(line, true), &log, "Enter", line).map_err(|(e, o)| Failure::new("tokens-cli", case(), e, o))
 }
 
 fn check_roundtrip_cli(list: &[String], line: &str) -> Verdict {
@@ -216,6 +270,79 @@ fn run_shard(ctx: &ShardCtx) {
     let enumerated = ctx.res.borrow().evaluations;
     ctx.class_n("enumerated", enumerated);
 
+    // G1b: a second alphabet - characters Unicode calls blanks (U+00A0, U+3000) are ordinary token characters
+    let syms2: [&str; 5] = ["a", " ", "\"", "\u{a0}", "\u{3000}"];
+    let depth2 = ctx.tier.pick(8u32, 9u32);
+    'outer2: for len in 1..=depth2 {
+        let total = 5u64.pow(len);
+        for code in 0..total {
+            idx += 1;
+            if !ctx.mine(idx) || ctx.failed() {
+                continue;
+            }
+            let mut line = String::with_capacity(24);
+            let mut c = code;
+            for _ in 0..len {
+                line.push_str(syms2[(c % 5) as usize]);
+                c /= 5;
+            }
+            if !line.contains('\u{a0}') && !line.contains('\u{3000}') {
+                continue;
+            }
+            ctx.count_eval();
+            match compare_line(&line) {
+                Ok(_) => ctx.nontrivial_enum(|| json!({"line": line})),
+                Err((e, o)) => {
+                    ctx.fail(Failure::new("tokens-enum", json!({"line": line}), format!("tokens of {:?}: {}", line, e), o));
+                    break 'outer2;
+                }
+            }
+        }
+    }
+    ctx.exhaustive(&format!("lines of <= {} symbols over {{a, space, quote, U+00A0, U+3000}}", depth2), !ctx.failed());
+
+    // G5: every short line typed through a whole Cli (Enter acts on the line as typed: nothing is trimmed, no token is
+    // lost between the tokeniser and the handler)
+    let depth5 = ctx.tier.pick(7u32, 8u32);
+    let mut g5 = 0u64;
+    'outer5: for len in 1..=depth5 {
+        let total = 6u64.pow(len);
+        for code in 0..total {
+            idx += 1;
+            if !ctx.mine(idx) || ctx.failed() {
+                continue;
+            }
+            let mut line = String::with_capacity(20);
+            let mut c = code;
+            for _ in 0..len {
+                line.push_str(syms[(c % 6) as usize]);
+                c /= 6;
+            }
+            ctx.count_eval();
+            g5 += 1;
+            if ctx.trace_file.is_some() {
+                ctx.trace(&json!({"check": "tokens-cli", "case": {"line": line}}));
+            }
+            match vmodel::engine::guarded(|| check_line_cli(&line)) {
+                Ok(Ok(())) => {
+                    if nontrivial(&line) {
+                        ctx.nontrivial_enum(|| json!({"typed": line}));
+                    }
+                }
+                Ok(Err(f)) => {
+                    ctx.fail(f);
+                    break 'outer5;
+                }
+                Err(p) => {
+                    ctx.fail(Failure::new("tokens-cli", json!({"line": line}), "no panic", p));
+                    break 'outer5;
+                }
+            }
+        }
+    }
+    ctx.exhaustive(&format!("lines of <= {} symbols over 6, typed through the Cli", depth5), !ctx.failed());
+    ctx.class_n("enumerated through the Cli", g5);
+
     // G2
     let table: Vec<char> = vec!['a', 'b', ' ', ' ', '"', '"', '\\', '-', 'é', 'Ж', '₿', '𝄞'];
     let ch = prop_oneof![
@@ -260,10 +387,14 @@ fn run_shard(ctx: &ShardCtx) {
         "roundtrip-cli",
         ctx.tier.pick(200_000, 2_000_000),
         rendering_strategy(true),
-        |r| json!({"list": r.list, "line": r.render()}),
+        |r| json!({"list": r.list, "line": r.render(), "direct": r.direct && !r.list.is_empty() && is_help_request(&r.list) == Some(false)}),
         |r| {
             let line = r.render();
-            let v = check_roundtrip_cli(&r.list, &line);
+            let direct = r.direct && !r.list.is_empty() && is_help_request(&r.list) == Some(false);
+            let v = if direct { check_direct_cli(&r.list, &line) } else { check_roundtrip_cli(&r.list, &line) };
+            if v.is_ok() && direct {
+                ctx.class("roundtrip-cli:typed as the whole line");
+            }
             if v.is_ok() && nontrivial(&line) {
                 ctx.class("roundtrip-cli:nontrivial");
                 ctx.nontrivial(fingerprint(&("cli", &line)), || json!({"list": r.list, "typed": format!("x -- {}", line)}));
@@ -281,7 +412,9 @@ fn replay(sub: &str, case: &Value) -> Verdict {
                 .as_array()
                 .map(|a| a.iter().map(|s| s.as_str().unwrap_or("").to_string()).collect())
                 .unwrap_or_default();
-            if sub == "roundtrip-cli" {
+            if sub == "roundtrip-cli" && case["direct"].as_bool() == Some(true) {
+                check_direct_cli(&list, &line)
+            } else if sub == "roundtrip-cli" {
                 check_roundtrip_cli(&list, &line)
             } else {
                 let (got, _) = real_tokens(&line);
@@ -292,6 +425,7 @@ fn replay(sub: &str, case: &Value) -> Verdict {
                 Ok(())
             }
         }
+        "tokens-cli" => check_line_cli(&line),
         _ => check_line(sub, &line),
     }
 }
